@@ -1,6 +1,7 @@
 """Which units / harnesses decide which property (see DESIGN.md section 5)."""
 
 A_COMMON = [
+    'A3 integer-encoding 4.0.2 VarInt::{encode_var,required_space,decode_var} for i16/i32/i64/u32 behave as zig-zag ULEB128 (assumed in Verus; proved on the real crate by the Kani harnesses a3_varint_*)',
     'A1 Verus 0.2026.09.13/z3, Kani 0.68/CBMC, rustc, and the extraction rules D1..D14 of vf/extract.py',
     'A2 bytes 1.8.0 (BytesMut::put_slice, Bytes::{len,split_to,clone}, Buf::{remaining,chunk,advance,copy_to_slice,get_u8}) behaves as the assumed sequence specifications in vf/spec/prelude.rs, including the documented panic preconditions',
     'A4 linkedbytes 0.1.8 bytes_mut/insert/insert_faststr and faststr len/as_ref/clone/from_bytes_unchecked: view = concatenation',
@@ -12,7 +13,7 @@ A_COMMON = [
 
 PROPS = {
     'C01': dict(
-        verus=['binary', 'binary_le'],
+        verus=['binary', 'binary_le', 'compact'],
         kani=[],
         assumptions=A_COMMON,
         not_covered='generated code (C02); unchecked binary codec is decided under C11',
